@@ -108,23 +108,90 @@ def run(chk, repo):
                          "several: all iterable -> chain in order, none iterable -> endless cycle, mixed -> TypeError")
     ini = repo.find(LS, "Stream.__init__")
     ib = docstring_free(ini.body)
-    ok = len(ib) == 1 and isinstance(ib[0], ast.If) and unparse(ib[0].test) == "len(dargs) == 0" \
-        and isinstance(ib[0].body[0], ast.Raise) and "TypeError" in unparse(ib[0].body[0])
-    one = ib[0].orelse[0] if ok and ib[0].orelse else None
-    ok1 = one is not None and isinstance(one, ast.If) and unparse(one.test) == "len(dargs) == 1" \
-        and unparse(one.body[0]) == "if isinstance(dargs[0], Iterable):\n    self._data = iter(dargs[0])\nelse:\n    self._data = it.repeat(dargs[0])"
-    chk.decide(ok and ok1, "C03.init", W("Stream.__init__"), "no argument -> TypeError; one argument -> iter / repeat",
-               why="a single iterable is wrapped as it is, a single non-iterable repeats endlessly", node=ini)
-    many = one.orelse if one is not None else []
-    okm = len(many) == 1 and isinstance(many[0], ast.If) \
-        and unparse(many[0].test) == "all((isinstance(arg, Iterable) for arg in dargs))" \
-        and unparse(many[0].body[0]) == "self._data = it.chain(*dargs)" and len(many[0].orelse) == 1 \
-        and isinstance(many[0].orelse[0], ast.If) \
-        and unparse(many[0].orelse[0].test) == "not any((isinstance(arg, Iterable) for arg in dargs))" \
-        and unparse(many[0].orelse[0].body[0]) == "self._data = it.cycle(dargs)" \
-        and isinstance(many[0].orelse[0].orelse[0], ast.Raise) and "TypeError" in unparse(many[0].orelse[0].orelse[0])
-    chk.decide(okm, "C03.init", W("Stream.__init__"), "several arguments: all iterable -> chain(*dargs); none -> cycle(dargs); "
-               "mixed -> TypeError", why="the periodic / chained constructors are the streams the model is built from", node=ini)
+    from .c08 import leaves as _leaves
+    va = ini.args.vararg.arg if ini.args.vararg else None
+    chk.require(va is not None, "Stream.__init__ has no *args parameter")
+
+    def truth(e, n, kinds):
+        """value of a guard for n arguments of the given kinds (True = iterable); None when not interpretable"""
+        if isinstance(e, ast.UnaryOp) and isinstance(e.op, ast.Not):
+            r_ = truth(e.operand, n, kinds)
+            return None if r_ is None else not r_
+        if isinstance(e, ast.BoolOp):
+            vals = [truth(v_, n, kinds) for v_ in e.values]
+            if any(v_ is None for v_ in vals):
+                return None
+            return all(vals) if isinstance(e.op, ast.And) else any(vals)
+        t_ = unparse(e)
+        if t_ == va:
+            return n != 0
+        if isinstance(e, ast.Compare) and len(e.ops) == 1:
+            l_, r_ = e.left, e.comparators[0]
+            ln = lambda x: unparse(x) == "len(%s)" % va
+            if ln(l_) and isinstance(r_, ast.Constant):
+                a_, b_ = n, r_.value
+            elif ln(r_) and isinstance(l_, ast.Constant):
+                a_, b_ = l_.value, n
+            else:
+                return None
+            return {ast.Eq: a_ == b_, ast.NotEq: a_ != b_, ast.Lt: a_ < b_, ast.LtE: a_ <= b_, ast.Gt: a_ > b_,
+                    ast.GtE: a_ >= b_}.get(type(e.ops[0]))
+        if t_ == "isinstance(%s[0], Iterable)" % va:
+            return kinds[0] if kinds else None
+        if isinstance(e, ast.Call) and unparse(e.func) in ("all", "any") and len(e.args) == 1 \
+                and isinstance(e.args[0], (ast.GeneratorExp, ast.ListComp)) and len(e.args[0].generators) == 1 \
+                and unparse(e.args[0].generators[0].iter) == va and not e.args[0].generators[0].ifs:
+            v_ = unparse(e.args[0].generators[0].target)
+            el = unparse(e.args[0].elt)
+            if el == "isinstance(%s, Iterable)" % v_:
+                vals = list(kinds)
+            elif el == "not isinstance(%s, Iterable)" % v_:
+                vals = [not k_ for k_ in kinds]
+            else:
+                return None
+            return all(vals) if unparse(e.func) == "all" else any(vals)
+        return None
+    lv = _leaves(ib)
+    scenarios = [(0, ()), (1, (True,)), (1, (False,)), (2, (True, True)), (2, (False, False)), (2, (True, False)),
+                 (2, (False, True)), (3, (True, True, True)), (3, (False, False, False)), (3, (True, False, True))]
+    want_txt = {"raise": None}
+    okall = True
+    problems = []
+    for n_, kinds in scenarios:
+        sel = []
+        for l_ in lv:
+            taken = True
+            for c_, pol_ in l_.conds:       # in execution order: a guard is only evaluated when the previous ones held
+                v_ = truth(c_, n_, kinds)
+                if v_ is None:
+                    raise AnalysisError("Stream.__init__: guard not interpretable: %s" % unparse(c_))
+                if v_ != pol_:
+                    taken = False
+                    break
+            if taken:
+                sel.append(l_)
+        if len(sel) != 1:
+            okall = False
+            problems.append("%d leaves for %d argument(s) %s" % (len(sel), n_, kinds))
+            continue
+        acts = [unparse(s_) for s_ in sel[0].stmts]
+        if n_ == 0 or (n_ >= 2 and len(set(kinds)) == 2):
+            good = len(sel[0].stmts) == 1 and isinstance(sel[0].stmts[0], ast.Raise) and "TypeError" in acts[0]
+            exp = "raise TypeError"
+        elif n_ == 1:
+            exp = "self._data = iter(%s[0])" % va if kinds[0] else "self._data = it.repeat(%s[0])" % va
+            good = acts == [exp]
+        else:
+            exp = "self._data = it.chain(*%s)" % va if kinds[0] else "self._data = it.cycle(%s)" % va
+            good = acts == [exp]
+        if not good:
+            okall = False
+            problems.append("%d argument(s) %s: %s (expected %s)" % (n_, tuple("iterable" if k_ else "scalar" for k_ in kinds),
+                                                                     " ; ".join(acts)[:60], exp))
+    chk.decide(okall, "C03.init", W("Stream.__init__"),
+               "decision table over %d argument configurations: none -> TypeError; one -> iter / repeat; several -> chain / "
+               "cycle / TypeError when mixed" % len(scenarios),
+               why="; ".join(problems) or "-", node=ini)
     itn = repo.find(LS, "Stream.__iter__")
     chk.decide(unparse(docstring_free(itn.body)[-1]) == "return self._data", "C03.init", W("Stream.__iter__"),
                "iteration hands out the single underlying iterator", why="a Stream is consumed through its one iterator",
